@@ -525,6 +525,14 @@ class Interp:
                 else:
                     out.append(self.ev(x, env, depth))
             return out
+        if isinstance(e, ast.BinOp) and isinstance(e.op, (ast.Div, ast.FloorDiv, ast.Mod)):
+            l, r = self.ev(e.left, env, depth), self.ev(e.right, env, depth)
+            if _is_num(l) and _is_num(r):
+                if r == 0:
+                    self.trace.append(Effect("raise", "ZeroDivisionError", node=e))
+                    raise _Return(UNKNOWN)
+                return l / r if isinstance(e.op, ast.Div) else l // r if isinstance(e.op, ast.FloorDiv) else l % r
+            return UNKNOWN
         if isinstance(e, ast.BinOp) and isinstance(e.op, ast.Mult):
             l, r = self.ev(e.left, env, depth), self.ev(e.right, env, depth)
             for a, b in ((l, r), (r, l)):
@@ -661,7 +669,13 @@ class Interp:
                 return all(vals) if nm == "all" else any(vals)
             if nm == "len" and len(args) == 1 and isinstance(args[0], list):
                 return len(args[0])
-            if nm in ("list", "tuple", "sorted", "iter", "reversed") and len(args) >= 1 and isinstance(args[0], list):
+            if nm == "reversed" and len(args) == 1 and isinstance(args[0], list):
+                return list(reversed(args[0]))
+            if nm == "sorted" and len(args) == 1 and isinstance(args[0], list) and kwargs.get("key") is None:
+                if all(_is_num(x) for x in args[0]):
+                    return sorted(args[0], reverse=kwargs.get("reverse") is True)
+                return list(args[0]) if len(args[0]) <= 1 else UNKNOWN
+            if nm in ("list", "tuple", "iter") and len(args) >= 1 and isinstance(args[0], list):
                 return list(args[0])
             if nm == "bool" and len(args) == 1:
                 return self.truthy(args[0])
@@ -690,8 +704,23 @@ class Interp:
                 return int(args[0])
             if nm in ("float", "int") and len(args) == 1 and isinstance(args[0], (SVal, int, float)):
                 return args[0]
-            if nm == "sum" and len(args) == 1 and isinstance(args[0], list) and all(isinstance(x, SVal) for x in args[0]):
+            if nm == "sum" and len(args) == 1 and isinstance(args[0], list) and args[0] and all(isinstance(x, SVal) for x in args[0]):
                 return SumVal(tuple(args[0]))
+            if nm == "sum" and len(args) == 1 and isinstance(args[0], list) and all(_is_num(x) for x in args[0]):
+                return sum(args[0])
+            if nm == "round" and 1 <= len(args) <= 2 and _is_num(args[0]) and (len(args) == 1 or isinstance(args[1], int)):
+                return round(*args)
+            if nm == "abs" and len(args) == 1 and _is_num(args[0]):
+                return abs(args[0])
+            if nm in ("nlargest", "nsmallest") and len(args) == 2 and isinstance(args[0], int) and isinstance(args[1], list) and kwargs.get("key") is None \
+                    and all(_is_num(x) for x in args[1]):
+                return sorted(args[1], reverse=(nm == "nlargest"))[:args[0]]
+            if nm in ("nlargest", "nsmallest") and len(args) == 2 and isinstance(args[0], int) and isinstance(args[1], list) and kwargs.get("key") is not None:
+                keys = [self.apply(kwargs["key"], [x], env, depth) for x in args[1]]
+                if all(_is_num(k) for k in keys):
+                    order = sorted(range(len(keys)), key=lambda i: keys[i], reverse=(nm == "nlargest"))
+                    return [args[1][i] for i in order[:args[0]]]
+                return UNKNOWN
             if nm == "id" and len(args) == 1 and isinstance(args[0], Sym):
                 return "id:" + args[0].tag
             if nm == "deque" and len(args) <= 1:
@@ -745,6 +774,10 @@ class Interp:
                 return [[i, x] for i, x in enumerate(args[0])]
             if nm == "zip" and all(isinstance(a, list) for a in args) and args:
                 return [list(t) for t in zip(*args)]
+        if isinstance(c.func, ast.Attribute) and isinstance(c.func.value, ast.Name) and c.func.value.id in ("heapq", "math", "itertools") \
+                and c.func.value.id not in env:
+            fake = ast.copy_location(ast.Call(func=ast.Name(id=nm, ctx=ast.Load()), args=c.args, keywords=c.keywords), c)
+            return self.call(fake, env, depth)
         # methods of a modelled dataclass instance: inlined with self = that object
         if isinstance(c.func, ast.Attribute) and depth < self.max_depth:
             recv_v = self.ev(c.func.value, env, depth) if not (isinstance(c.func.value, ast.Name) and c.func.value.id == "self"
@@ -829,7 +862,7 @@ class Interp:
                         if k.startswith("self."):
                             env[k] = v
                     return rv
-        if isinstance(c.func, ast.Attribute) and nm in ("append", "pop", "popleft", "add", "remove", "extend", "update") and args is not None:
+        if isinstance(c.func, ast.Attribute) and nm in ("append", "pop", "popleft", "add", "remove", "extend", "update", "sort", "reverse") and args is not None:
             base = self.ev(c.func.value, env, depth)
             if isinstance(base, list):
                 if nm == "append" and args:
@@ -844,6 +877,16 @@ class Interp:
                         return base.pop(i)
                 if nm == "remove" and args and args[0] in base:
                     base.remove(args[0])
+                    return None
+                if nm in ("sort",) and kwargs.get("key") is not None:
+                    keys = [self.apply(kwargs["key"], [x], env, depth) for x in base]
+                    if all(_is_num(k) for k in keys):
+                        order = sorted(range(len(keys)), key=lambda i: keys[i], reverse=kwargs.get("reverse") is True)
+                        base[:] = [base[i] for i in order]
+                        return None
+                    return UNKNOWN
+                if nm == "reverse" and not args:
+                    base.reverse()
                     return None
             if isinstance(base, set) and nm == "add" and args:
                 base.add(self._hashable(args[0]))
